@@ -662,7 +662,17 @@ def r04_9(run):
     run.ob('R04.9', u, u.node, 'exactly one AUTHENTICATE command carrying the token', ok, slot='token-sent', message='authenticate() queues %s' % [src(c)[:60] for c in cmds])
 
 
+def r04_11(run):
+    """the ready notification fails when the connection is lost during authentication: that failure is delivered by
+    connectionLost's errback loop, so the loop must reach the errback for every outstanding command - a partial operation on the
+    command text in front of it (splitting "VERB args" when a bare AUTHENTICATE has no args) raises out of connectionLost and
+    post_bootstrap never fires (rule R03.4, shared)"""
+    from . import c03
+    borrow(run, c03.r03_4, 'R04.11')
+
+
 RULES = [
+    ('R04.11', 'a loss during authentication reaches the errback of the outstanding command (R03.4 borrowed: no partial operation in the errback loop)', r04_11),
     ('R04.10', 'the password leg always decides (AUTHENTICATE or refusal); the provider is stored as given', r04_10),
     ('R04.1', 'call-graph vocabulary: only PROTOCOLINFO/AUTHCHALLENGE/AUTHENTICATE reachable before _bootstrap; _bootstrap attached only behind AUTHENTICATE', r04_1),
     ('R04.2', 'exhaustive path/valuation enumeration of _do_authenticate (advertised methods x cookie read outcome x password function): preference and usability oracle', r04_2),
